@@ -59,6 +59,29 @@ fn payload_of(it: &Item) -> Vec<u8> {
     (0..it.len).map(|i| (i as u8).wrapping_mul(31).wrapping_add(it.fill)).collect()
 }
 
+/// every nonce the crate produced in this run (for the per-position freshness check)
+static NONCES: std::sync::Mutex<Vec<[u8; 12]>> = std::sync::Mutex::new(Vec::new());
+
+/// "a fresh random 12-byte nonce": over n >= 64 nonces every one of the 96 bit positions must
+/// take both values (a fixed bit would survive with probability 2^-(n-1)).
+pub fn check_nonce_positions(nonces: &[[u8; 12]]) -> Result<(), Failure> {
+    if nonces.len() < 64 {
+        return Ok(());
+    }
+    for byte in 0..12 {
+        for bit in 0..8 {
+            let ones = nonces.iter().filter(|n| n[byte] & (1 << bit) != 0).count();
+            crate::ensure!(
+                ones != 0 && ones != nonces.len(),
+                "nonce-not-random",
+                "bit {bit} of nonce byte {byte} has the same value in all {} nonces produced in this run: the nonce is not 12 fresh random bytes",
+                nonces.len()
+            );
+        }
+    }
+    Ok(())
+}
+
 pub fn check_key(c: &KeyCase) -> CheckResult {
     let mut rep = CaseReport::default();
     let cr = Cryptor::new(&c.salt, &c.secret)
@@ -97,6 +120,11 @@ pub fn check_key(c: &KeyCase) -> CheckResult {
         let sealed2 = cr.seal(vid, payload.clone()).map_err(|e| Failure::new("seal-error", format!("{e}")))?;
         crate::ensure!(sealed2 != sealed, "seal-deterministic", "sealing the same input twice gave identical output (no fresh nonce)");
         nonces.insert(sealed2[1..13].try_into().unwrap());
+        {
+            let mut all = NONCES.lock().unwrap();
+            all.push(nonce);
+            all.push(sealed2[1..13].try_into().unwrap());
+        }
         // the crate opens what an independent implementation seals
         let foreign = doc_seal(&key, vid.as_bytes(), &it.nonce, &payload);
         let back = cr.unseal(vid, foreign.clone()).map_err(|e| {
@@ -209,6 +237,18 @@ pub fn check_key(c: &KeyCase) -> CheckResult {
             );
         }
         rep.class("other-salt");
+    }
+    if nonces.len() >= 12 {
+        for pos in 0..12 {
+            let distinct: BTreeSet<u8> = nonces.iter().map(|n| n[pos]).collect();
+            crate::ensure!(
+                distinct.len() >= 2,
+                "nonce-not-random",
+                "nonce byte {pos} has the same value ({:?}) in all {} nonces of this case",
+                distinct,
+                nonces.len()
+            );
+        }
     }
     for r in regions {
         rep.class(match r {
@@ -606,6 +646,7 @@ pub fn run(e: &Engine) {
         std::process::exit(2)
     });
     e.assume("the oracle is an independent implementation of PBKDF2-HMAC-SHA256 / ChaCha20-Poly1305 (RFC 8439) written in the harness and self-tested against the RFC vectors at start-up");
+    e.set_shrink_iters(24);
     e.campaign(
         "seal-unseal-tamper",
         "per case one (secret 0-63 bytes, salt) key derivation and 8 sealed values (version id, payload 0 B-70 kB, foreign nonce): differential against the independent implementation in both directions, nonce uniqueness, then EVERY byte position x {xor 1, 0x80, 0xff}, EVERY truncation, extensions, every single-bit change of the version id, foreign application id, other secret, other salt must all be rejected (positions sampled for payloads > 430 bytes); evaluations count tamper attempts",
@@ -614,6 +655,12 @@ pub fn run(e: &Engine) {
         |c| serde_json::json!({"secret_len": c.secret.len(), "salt_len": c.salt.len(), "items": c.items.iter().map(|i| format!("version {:032x}, {} bytes", i.version, i.len)).collect::<Vec<_>>()}),
         check_key,
     );
+    if !e.failed() && e.replay.is_none() {
+        let all = NONCES.lock().unwrap().clone();
+        if let Err(f) = check_nonce_positions(&all) {
+            e.record_violation("seal-unseal-tamper", f, &serde_json::json!({"nonces_examined": all.len()}));
+        }
+    }
     e.campaign(
         "stored-form",
         "two replicas with marker strings in every value sync through the object-store server (key derived from the stored random salt), the git server, or the HTTP client against the harness's protocol server (salt = client id, versions bound to the parent id, snapshots to their own); every stored version/snapshot must open with the independent implementation bound to its own version id, no marker may occur in anything stored, and a flipped bit or swapped object must make the Server call fail; non-trivial = at least one stored version checked",
